@@ -2,13 +2,14 @@ package main
 
 import (
 	"go/token"
+	"go/types"
 	"strings"
 
 	"golang.org/x/tools/go/ssa"
 )
 
 func init() {
-	register("C28", []string{"./src/remote/..."}, checkC28)
+	register("C28", []string{"./src/remote/...", "./src/core/..."}, checkC28)
 }
 
 const pbDir = "github.com/bazelbuild/remote-apis/build/bazel/remote/execution/v2.Directory."
@@ -142,6 +143,72 @@ func checkC28(p *Prog, r *Report) {
 			}
 		}
 		r.check(okRoot && nRet > 0, rule, "the root directory goes through the canonicalising walk", p.pos(bld.Pos()), fnName(bld), "walk(\".\") dominates every return of Build", "dirBuilder.Build returns the root Directory without walking it: files and symlinks that sit directly in the repository root stay in declaration order and keep their duplicates, so the input-root digest depends on input order and the root is not a canonical Directory")
+	}
+	// what goes into the input root does not depend on declaration order: every declared input path is walked, and every
+	// run-time dependency that the traversal reaches as a run-time dependency is yielded (the traversal's visited set also
+	// holds targets that were only passed through as data and never yielded)
+	if ui := p.Fn("remote", "Client.uploadInput"); ui == nil {
+		r.unresolved("E5.every-input-walked", "remote.Client.uploadInput")
+	} else {
+		n := 0
+		for _, l := range sliceRangeLoops(ui) {
+			if !tagsOf(l.over, SliceOpts{})["call:(core.BuildInput).Paths"] && !strings.Contains(typeString(l.over.Type()), "string") {
+				continue
+			}
+			hasWalk := false
+			for b := range l.blocks {
+				for _, i := range b.Instrs {
+					if isCallTo(i, "fs.Walk", "fs.WalkMode") {
+						hasWalk = true
+					}
+				}
+			}
+			if !hasWalk {
+				continue
+			}
+			n++
+			skips := l.iterationSkips(func(i ssa.Instruction) bool { return isCallTo(i, "fs.Walk", "fs.WalkMode") })
+			r.check(!skips, "E5.every-input-walked", "every path of an input is walked into the input root", p.pos(l.header.Instrs[0].Pos()), fnName(ui), "no iteration over the input's paths skips the walk", "uploadInput skips an input path under some condition (e.g. when a directory of that name already exists in the builder, which is the case as soon as anything was placed beneath it): a directory source declared after a file inside it is left out, so the input-root digest depends on the order of declaration")
+		}
+		if n == 0 {
+			r.unresolved("E5.every-input-walked", "the loop over input paths in uploadInput")
+		}
+	}
+	if it := p.Fn("core", "BuildTarget.IterAllRuntimeDependencies"); it == nil {
+		r.unresolved("E5.every-input-walked", "core.BuildTarget.IterAllRuntimeDependencies")
+	} else {
+		// in the loop over runtimeDependencies, the yield call is not preceded by a test of the visited set
+		bad := false
+		nY := 0
+		for _, g := range withAnon(it) {
+			for _, l := range sliceRangeLoops(g) {
+				if fieldKeyOfLoad(l.over) != "core.BuildTarget.runtimeDependencies" {
+					continue
+				}
+				eachInstr(g, false, func(_ *ssa.Function, i ssa.Instruction) {
+					c, ok := i.(*ssa.Call)
+					if !ok || !l.blocks[c.Block()] {
+						return
+					}
+					if _, isPrm := c.Call.Value.(*ssa.Parameter); !isPrm {
+						return
+					}
+					nY++
+					for _, f := range factsAt(c) {
+						if lk, ok := f.V.(*ssa.Lookup); ok {
+							if _, isMap := lk.X.Type().Underlying().(*types.Map); isMap && l.blocks[lk.Block()] {
+								bad = true
+							}
+						}
+					}
+				})
+			}
+		}
+		if nY == 0 {
+			r.unresolved("E5.every-input-walked", "the yield of run-time dependencies in IterAllRuntimeDependencies")
+		} else {
+			r.check(!bad, "E5.every-input-walked", "a run-time dependency is yielded whether or not the traversal has passed through it before", p.pos(it.Pos()), fnName(it), "the yield in the loop over runtimeDependencies is not guarded by the visited set", "IterAllRuntimeDependencies skips the yield for a target that is already in its visited set: that set also contains targets that were only traversed as somebody's data (and deliberately not yielded), so a target reached first as data and later as a run-time dependency is dropped, and the inputs uploaded for a test depend on the order of runtime_deps")
+		}
 	}
 	// (2)
 	rule = "E7.directory-digest-sites"
